@@ -81,6 +81,10 @@ def run (args : List String) : Option String :=
     let res ← parseOpt? parsePair? res
     let tight ← parseBool? tight; let anchor ← parseAnchor? anchor; let tol ← parseRat? tol
     pure (fmtRes fmtGrid (fromBbox bb shape res anchor tight tol))
+  | ["fpbbox", a, nx, ny, buf] => do
+    let a ← parseAff? a; let nx ← parseNat? nx; let ny ← parseNat? ny; let buf ← parseRat? buf
+    let b := linearFootprintBBox a nx ny buf
+    pure (",".intercalate ([b.left, b.bottom, b.right, b.top].map fmtRat))
   | ["utm", req, epsg, south] => do
     let req ← (match req with | "utm" => some UtmReq.utm | "utm-n" => some .utmN | "utm-s" => some .utmS | _ => none)
     let epsg ← parseInt? epsg; let south ← parseBool? south
